@@ -329,6 +329,11 @@ where
 
 /// `parse_recon_document` fed from a source that returns the document in the given pieces, one per read.
 fn read_document(bytes: &[u8], cuts: &[usize]) -> Result<Vec<swimos_model::Item>, String> {
+    read_document_with(bytes, cuts, false)
+}
+
+/// The same with the reader's `allow_comments` flag given.
+pub fn read_document_with(bytes: &[u8], cuts: &[usize], allow_comments: bool) -> Result<Vec<swimos_model::Item>, String> {
     use std::future::Future;
     use std::pin::Pin;
     use std::task::{Context, Poll, Waker};
@@ -355,7 +360,7 @@ fn read_document(bytes: &[u8], cuts: &[usize]) -> Result<Vec<swimos_model::Item>
     }
     let pieces: Vec<Vec<u8>> = chunks_of(bytes, cuts).into_iter().map(|c| c.to_vec()).filter(|c| !c.is_empty()).collect();
     let src = Pieces { pieces, next: 0, offset: 0 };
-    let fut = swimos_recon::parser::parse_recon_document(src, false);
+    let fut = swimos_recon::parser::parse_recon_document(src, allow_comments);
     let mut fut = std::pin::pin!(fut);
     let mut cx = Context::from_waker(Waker::noop());
     for _ in 0..1_000_000 {
@@ -504,7 +509,6 @@ pub fn run(s: &mut Session) {
         },
     ); }
 
-    let cases = s.args.budget(8_000, 400_000);
     // The document reader (`parse_recon_document`) has its own read / parse / carry-over loop.
     let cases = s.args.budget(3_000, 150_000);
     if crate::want(s, "document-chunks") {
@@ -585,6 +589,11 @@ pub fn run(s: &mut Session) {
         );
     }
 
+    if crate::want(s, "comments") {
+        crate::c09_comments::run(s);
+    }
+
+    let cases = s.args.budget(8_000, 400_000);
     if crate::want(s, "bytes-robust") { s.part(
         "bytes-robust",
         "byte-mutated texts (bit flips, stray UTF-8 lead/continuation bytes, truncation): valid UTF-8 goes through the chunking oracle; otherwise both decoders are fed the bytes whole and in random chunks: no panic, bounded decode calls, the framed decoder delivers exactly one result per frame and then decodes a following well-formed frame correctly; non-trivial when the bytes are not valid UTF-8; distinct by bytes",
